@@ -41,7 +41,8 @@ Variants == << [v |-> "S2",      n |-> 2, selfStrict |-> FALSE],     \* A int `j
                [v |-> "SEmb",    n |-> 0, selfStrict |-> FALSE],     \* struct{ Inner }  (untagged embedded: no positional names)
                [v |-> "SEmbTag", n |-> 1, selfStrict |-> FALSE],     \* struct{ Inner `json:"in"` }
                [v |-> "SNone",   n |-> 0, selfStrict |-> FALSE],     \* only unexported / json:"-" fields
-               [v |-> "SDUF",    n |-> 2, selfStrict |-> TRUE] >>    \* S2 with a DisallowUnknownFields method
+               [v |-> "SDUF",    n |-> 2, selfStrict |-> TRUE],      \* S2 with a DisallowUnknownFields method
+               [v |-> "SUnexpTag", n |-> 2, selfStrict |-> FALSE] >> \* A int; b int `json:"b"` (unexported: skipped although tagged); C int `json:"c"`
 PClasses == <<"absent", "null", "objExact", "objSubset", "objUnknown", "objNestedUnknown", "objWrongType",
               "arrNminus1", "arrN", "arrNplus1", "arrWrongType", "arrWithNull", "arrEmpty">>
 
